@@ -151,6 +151,28 @@ for m, o in zip(se_meta, drv.run(se_lines) if se_lines else []):
         chk.violation("snell-exact:fd-tube", "finite-difference ray tube disagrees with the proved model", m,
                       failing_input_found=False)
 
+# single medium, LARGE target sets (a TFM grid of more than 2^15 points): d = r for every ray, forward and reverse
+g_ = arim.geometry
+for nbig in ((36000,) if Q else (36000, 70000)):
+    src = g_.Points(np.array([[0.0, 0.0, 0.0], [3e-3, 0.0, 1e-3]]))
+    xs = rng.uniform(-30e-3, 30e-3, nbig)
+    zs = rng.uniform(5e-3, 60e-3, nbig)
+    dst = g_.Points(np.stack([xs, np.zeros(nbig), zs], axis=1))
+    itf = [arim.Interface(src, g_.default_orientations(src), are_normals_on_out_rays_side=True),
+           arim.Interface(dst, g_.default_orientations(dst), are_normals_on_inc_rays_side=True)]
+    pth = arim.Path(itf, [arim.Material(longitudinal_vel=5900.0)], ["L"])
+    arim.ray.ray_tracing_for_paths([pth])
+    want = 1.0 / np.sqrt(np.linalg.norm(dst.coords[None, :, :] - src.coords[:, None, :], axis=-1))
+    for nm_, fn_ in (("beamspread_2d_for_path", model.beamspread_2d_for_path), ("reverse_beamspread_2d_for_path", model.reverse_beamspread_2d_for_path)):
+        got = np.asarray(fn_(arim.ray.RayGeometry.from_path(pth)))
+        chk.count(large_single_medium=nm_)
+        if got.shape != want.shape or not np.allclose(got, want, rtol=1e-12, atol=0):
+            bad_ = np.argwhere(~np.isclose(got, want, rtol=1e-12, atol=0))[-1] if got.shape == want.shape else None
+            chk.violation("single-medium:large-set", f"{nm_} in a single medium is not 1/sqrt(r) for every ray of a {nbig}-point target set",
+                          dict(function=nm_, numtargets=nbig, ray=None if bad_ is None else [int(b) for b in bad_],
+                               got=None if bad_ is None else float(got[tuple(bad_)]), expected=None if bad_ is None else float(want[tuple(bad_)]),
+                               how="targets = rng.uniform in a 60 x 55 mm box; seed and tier replay it"))
+
 # scaling law on the implementation: scale the geometry by s -> beamspread / sqrt(s)
 nscale = 0
 for _ in range(3 if Q else 20):
@@ -177,7 +199,7 @@ for _ in range(3 if Q else 20):
 samples = [{k: meta[i][k] for k in ("path", "vel", "legs", "thetas", "impl", "model_beamspread", "spec_tube_amplitude")}
            for i in range(0, len(meta), max(1, len(meta) // 4))][:4]
 chk.finish(
-    evaluations=len(meta) + nscale + len(se_meta),
+    evaluations=len(meta) + nscale + len(se_meta) + 2 * (36000 if Q else 106000),
     distinct_nontrivial=len(nontrivial),
     rule=("one case = one ray (element i, scatterer j) of one path of a random immersion set-up (random materials, "
           "tilt, standoff, wall sampling, 0..2 reflections => 2..4 legs with mode conversion); non-trivial = at least "
